@@ -69,12 +69,13 @@ class VC:
 
     def final_versions(self, base):
         """map index -> symbol name of the last SSA version of |base#k[[index]]|"""
-        rx = re.compile(r"^\|" + re.escape(base) + r"#(\d+)\[\[(\d+)\]\]\|$")
+        # CBMC prints field-sensitive array indices in upper-case hexadecimal: [[1B]] is element 27
+        rx = re.compile(r"^\|" + re.escape(base) + r"#(\d+)\[\[([0-9A-F]+)\]\]\|$")
         best = {}
         for name in self.defs:
             m = rx.match(name)
             if m:
-                k, i = int(m.group(1)), int(m.group(2))
+                k, i = int(m.group(1)), int(m.group(2), 16)
                 if i not in best or k > best[i][0]:
                     best[i] = (k, name)
         return {i: v[1] for i, v in best.items()}
